@@ -54,6 +54,9 @@ func semUnit(c *Ctx, prop string, p *Prog, txts []string, withVars bool, alsoRep
 			}
 			got := spansOf(ms)
 			c.Outcome(fmtSpans(got, withVars))
+			if len(got) >= 2 && len(t) >= 4 {
+				c.Sample(map[string]any{"program": src, "text": t, "engine": fmtSpans(got, withVars), "reference": fmtSpans(want, withVars)})
+			}
 			if spansEqual(got, want, withVars) {
 				continue
 			}
@@ -277,7 +280,84 @@ func genericReplay(rec map[string]any) {
 		if pi != nil || (rec["want"] == "accepted" && err != nil) {
 			osExit(1)
 		}
+	case "shape":
+		text, _ := rec["text"].(string)
+		first, _ := rec["first"].(float64)
+		v, err, pi := compileSafe(src)
+		if pi != nil || err != nil {
+			fmt.Println("compile failed:", err, pi)
+			osExit(1)
+		}
+		ms, pi := runSafe(v, text)
+		fmt.Printf("text: %q\nmatches: %v\npanic: %v\n", text, matchRecords(ms), pi)
+		if msg := shapeViolation(text, ms, int(first)); msg != "" || pi != nil {
+			fmt.Println("shape violation:", msg)
+			osExit(1)
+		}
+		fmt.Println("replay passes (no violation)")
+	case "window":
+		if _, isC07 := rec["ops"]; isC07 {
+			fmt.Printf("buffered reader: file of %v bytes, operations %v\n%v\n(re-run `run.sh C07 quick` to re-execute the window machine)\n", rec["size"], rec["ops"], rec["desc"])
+			return
+		}
+		text, _ := rec["text"].(string)
+		all, _ := rec["all"].(string)
+		lo, _ := rec["lo"].(float64)
+		hi, _ := rec["hi"].(float64)
+		va, e1, _ := compileSafe(all)
+		v, e2, _ := compileSafe(src)
+		if e1 != nil || e2 != nil || va == nil || v == nil {
+			fmt.Println("compile failed:", e1, e2)
+			osExit(1)
+		}
+		ma, _ := runSafe(va, text)
+		ms, pi := runSafe(v, text)
+		A := matchRecords(ma)
+		got := matchRecords(ms)
+		fmt.Printf("text: %q\nA = %q gives %v\n%q gives %v (panic %v)\n", text, all, A, src, got, pi)
+		if int(hi) > len(A) || strings.Join(got, "|") != strings.Join(A[int(lo):int(hi)], "|") {
+			fmt.Printf("expected A[%d:%d]\n", int(lo), int(hi))
+			osExit(1)
+		}
+		fmt.Println("replay passes (no violation)")
+	case "steps":
+		text, _ := rec["text"].(string)
+		budget, _ := rec["budget"].(float64)
+		installStepHook()
+		v, err, pi := compileSafe(src)
+		if pi != nil || err != nil {
+			fmt.Println("compile failed:", err, pi)
+			osExit(1)
+		}
+		stepCount, stepBudget = 0, int64(budget)
+		_, pi = runSafe(v, text)
+		fmt.Printf("text: %q\nVM instructions executed: %d (budget %d) panic=%v\n", text, stepCount, int64(budget), pi)
+		if pi != nil {
+			osExit(1)
+		}
+		fmt.Println("replay passes (terminates within the budget)")
+	case "layout":
+		base, _ := rec["base"].(string)
+		b, p1 := c15Eval(base)
+		v, p2 := c15Eval(src)
+		fmt.Printf("base:    %q accepted=%v panic=%v\nvariant: %q accepted=%v panic=%v\n", base, b.accepted, p1, src, v.accepted, p2)
+		if p1 != nil || p2 != nil || b.accepted != v.accepted || strings.Join(b.results, "|") != strings.Join(v.results, "|") {
+			osExit(1)
+		}
+		fmt.Println("acceptance and results agree (trees are compared by the check itself)")
+	case "json", "replace", "records", "expr", "literal":
+		text, _ := rec["text"].(string)
+		v, err, pi := compileSafe(src)
+		fmt.Printf("Compile -> err=%v panic=%v\n", err, pi)
+		if v != nil {
+			ms, pi := runSafe(v, text)
+			fmt.Printf("text: %q\nmatches: %v\npanic: %v\n", text, matchRecords(ms), pi)
+			if kind == "json" {
+				fmt.Println("Json():", guard(func() { fmt.Println(ms.Json()) }))
+			}
+		}
+		fmt.Printf("reported: %v\n", rec["desc"])
 	default:
-		fmt.Printf("record: %v\n(no automatic replay for this kind; see desc)\n", rec["desc"])
+		fmt.Printf("record: %v\n(no automatic replay for this kind: re-run the check; the record above holds the exact inputs)\n", rec["desc"])
 	}
 }
